@@ -37,7 +37,7 @@ func near(a, b float64) bool { return math.Abs(a-b) <= tol(a, b) }
 func init() {
 	fw.Register(&fw.Prop{
 		ID: "C11",
-		Rule: "case i mod 20: 0-11 a generated paragraph (words, nested inline boxes with margins/borders/padding, inline-blocks, <br>, preserved newlines; white-space, text-align, line-height, text-indent, font sizes drawn) set in Ahem and laid out by the pango engine at up to 64 container widths (every multiple of font-size/2 from 1 up to 40, then a random sample up to the paragraph's full length + 2), each block compared line by line with the reference line breaker; 12-13 the same with overflow-wrap on plain text; 14-15 the same on plain text with the go-text engine; 16-17 direct calls of text.SplitFirstLine (Ahem exact, DejaVu Sans inequalities; pango / go-text) over a sweep of maximum widths; 18-19 a plain paragraph in DejaVu Sans at 48 widths, inequalities only (pango / go-text). " +
+		Rule: "case i mod 20: 0-11 a generated paragraph (words, nested inline boxes with margins/borders/padding, inline-blocks, <br>, preserved newlines; white-space, text-align, line-height, text-indent, font sizes drawn) set in Ahem and laid out by the pango engine at up to 64 container widths (every multiple of font-size/2 from 1 up to 40, then a random sample up to the paragraph's full length + 2), each block compared line by line with the reference line breaker; 12-13 the same with overflow-wrap:anywhere/break-word on plain text or (3 cases in 4) with top-level inline boxes holding one text node each (own margins/borders/padding and font sizes), inline-blocks and <br> between them: an overlong word is cut only where the line has no other opportunity, a word that does not fit the rest of a line moves to the next line whole; 14-15 the same on plain text with the go-text engine; 16-17 direct calls of text.SplitFirstLine (Ahem exact, DejaVu Sans inequalities; pango / go-text) over a sweep of maximum widths, one case in four with overflow-wrap (break-word and anywhere in turn) on a text that does not start its line (isLineStart=false: no word may be cut); 18-19 a plain paragraph in DejaVu Sans at 48 widths, inequalities only (pango / go-text). " +
 			"A case is non-trivial when at least one width produced a soft wrap and no comparison of the case failed; distinct = distinct input",
 		N: func(tier string) int {
 			if tier == "thorough" {
@@ -72,13 +72,23 @@ func init() {
 				"split_soft_breaks":       1500 * k,
 				"real_blocks":             1500 * k,
 				"real_soft_breaks":        3000 * k,
+				// overflow-wrap next to inline boxes: blocks compared, words cut inside or at the edge of
+				// an inline box, and overlong words that had to move to the next line whole although a
+				// prefix fitted the rest of the line and they begin a text box in the middle of the line
+				"ow_blocks_with_inline_boxes":              800 * k,
+				"ow_word_splits_at_inline_box":             800 * k,
+				"ow_words_deferred_midline_box":            120 * k,
+				"ow_break-word_words_deferred_midline_box": 30 * k,
+				"ow_anywhere_words_deferred_midline_box":   30 * k,
+				"split_ow_not_line_start_calls":            800 * k,
+				"split_ow_not_line_start_overlong":         60 * k,
 			}
 		},
 		Assumptions: []string{
 			"exact positions are asserted only with the Ahem font (1em square glyphs, ascent 0.8em, descent 0.2em), left-to-right ASCII text, no floats, no hyphenation, no letter/word spacing",
 			"with DejaVu Sans (/usr/share/fonts/truetype/dejavu/DejaVuSans.ttf) only inequalities with 2px slack are asserted",
-			"feature combinations that trigger the open defects of notes/C11.md (D1-D3, D5, D7-D11, D13-D16, G1, G3; D4, D6, D12 are fixed and compared) are not generated or are skipped by the reference model's guards (counted as blocks_skipped_known_defect_*)",
-			"pre-wrap: plain text, single spaces, no space before a forced break; go-text engine: plain text in white-space normal/nowrap; overflow-wrap: plain text, no indent; word-break:break-all not compared",
+			"feature combinations that trigger the open defects of notes/C11.md (D2, D3, D5, D7-D11, D13-D19, G1, G3; D1, D4, D6, D12 are fixed and compared) are not generated or are skipped by the reference model's guards (counted as blocks_skipped_known_defect_*)",
+			"pre-wrap: plain text, single spaces, no space before a forced break; go-text engine: plain text in white-space normal/nowrap; overflow-wrap: pango engine, inline boxes are not nested and hold words only (D17), no word runs across an inline-box edge (D18), no indent (D14); word-break:break-all not compared",
 		},
 		Batch: 10,
 		// hang detection only; generous because kernel time is charged to the worker when the
@@ -115,9 +125,9 @@ func genCase(r *rand.Rand, i int, tier string) any {
 	slot := i % 20
 	switch slot {
 	case 16:
-		return genSplit(r, "pango")
+		return genSplit(r, "pango", i/20)
 	case 17:
-		return genSplit(r, "gotext")
+		return genSplit(r, "gotext", i/20)
 	case 18:
 		return genReal(r, "pango")
 	case 19:
@@ -144,7 +154,7 @@ func genCase(r *rand.Rand, i int, tier string) any {
 		// spacing and own font sizes), inline-blocks and <br> between them; no glue across box
 		// edges, no nesting, no indent (see notes: D14, D17, D18)
 		sp := i%8 != 0 && (ft.Spans || r.Intn(2) == 0)
-		ft = features{Hyphen: ft.Hyphen, MultiSp: ft.MultiSp, Br: ft.Br, IB: ft.IB, Spans: sp, Leaf: true}
+		ft = features{Hyphen: ft.Hyphen, MultiSp: ft.MultiSp, Br: ft.Br, IB: ft.IB, Spans: sp, Leaf: !lifted("D17"), Glue: ft.Glue && lifted("D18")}
 		ft.Spacing = sp && r.Intn(2) == 0
 		ft.FontSize = sp && r.Intn(4) == 0
 		ws = wpick(r, "normal", 3, "pre-line", 1)
@@ -251,11 +261,24 @@ func checkAhem(in *c11In) fw.Result {
 			res.Fail(sig, fmt.Sprintf("container width %dpx: %s\n  expected lines: %s\n  observed lines: %s\n  %s", W, msg, expText(exp), obsText(obs), witness(&in.Para, W)))
 			res.Count("blocks_failed", 1)
 			if os.Getenv("C11_DEBUG") != "" {
-				fmt.Fprintf(os.Stderr, "DEBUG %s W=%d %s\n   exp %s\n   obs %s\n   %s\n", sig, W, msg, expText(exp), obsText(obs), in.Para.Doc("Ahem", []int{W})[strings.Index(in.Para.Doc("Ahem", []int{W}), "<body>"):])
+				// development only: every failing block, not only the first one of the case
+				fmt.Fprintf(os.Stderr, "DEBUG %s W=%d %s\n   exp %s\n   obs %s\n   %s\n", sig, W, msg, expText(exp), obsText(obs), witness(&in.Para, W))
 			}
 			continue
 		}
 		res.Count("blocks_compared", 1)
+		if m.owAny {
+			res.Count("ow_blocks", 1)
+			if len(m.boxes) > 1 {
+				res.Count("ow_blocks_with_inline_boxes", 1)
+			}
+			res.Count("ow_word_splits", int64(m.owSplits))
+			res.Count("ow_word_splits_at_inline_box", int64(m.owSplitsInBox))
+			res.Count("ow_words_deferred", int64(m.owDeferred))
+			res.Count("ow_words_deferred_midline_box", int64(m.owDeferredBox))
+			res.Count("ow_"+in.Para.OW+"_blocks", 1)
+			res.Count("ow_"+in.Para.OW+"_words_deferred_midline_box", int64(m.owDeferredBox))
+		}
 		res.Count("lines_compared", int64(len(exp)))
 		soft := 0
 		for i, l := range exp {
@@ -373,6 +396,8 @@ func compare(m *model, W float64, exp []Line, obs []OLine) (string, string) {
 				return "edge-space", fmt.Sprintf("line %d: white space at the line start: expected %q, observed %q", k+1, e, o)
 			case strings.HasPrefix(et, ot):
 				return "break-too-early", fmt.Sprintf("line %d breaks after %q although %q fits in %gpx (content %gpx)", k+1, o, e, W, exp[k].Content)
+			case strings.HasPrefix(ot, et) && k+1 < len(obs) && strings.ContainsAny(strings.TrimSpace(ot), " -￼") && m.cutInsideWord(inkCount(obs[:k+1])):
+				return "forbidden-break", fmt.Sprintf("line %d holds %q and the next line starts with %q: a word is cut although the line has a soft wrap opportunity before it (expected break after %q; overflow-wrap:%q only allows a break inside a word when the line has no other opportunity)", k+1, o, lineStr(obs[k+1].Frags), e, m.p.OW)
 			case strings.HasPrefix(ot, et):
 				return "break-too-late", fmt.Sprintf("line %d holds %q (expected break after %q: the rest does not fit %gpx)", k+1, o, e, W)
 			}
@@ -447,6 +472,39 @@ func compare(m *model, W float64, exp []Line, obs []OLine) (string, string) {
 		}
 	}
 	return "", ""
+}
+
+// inkCount is the number of non-space characters and atomic inlines held by the lines.
+func inkCount(ls []OLine) (n int) {
+	for _, l := range ls {
+		for _, f := range l.Frags {
+			if f.Kind == "a" {
+				n++
+				continue
+			}
+			for _, r := range f.Text {
+				if r != ' ' {
+					n++
+				}
+			}
+		}
+	}
+	return n
+}
+
+// cutInsideWord reports whether a line break after the n-th non-space content item of the paragraph
+// separates two characters that have no soft wrap opportunity between them.
+func (m *model) cutInsideWord(n int) bool {
+	for i, it := range m.items {
+		if (it.k == 'c' && !it.sp) || it.k == 'a' {
+			n--
+		}
+		if n == 0 {
+			j := m.nextContent(i + 1)
+			return it.k == 'c' && j < len(m.items) && m.items[j].k == 'c' && !m.items[j].sp && !m.breakAfter(i, j)
+		}
+	}
+	return false
 }
 
 func solidSpans(in []Frag) []Frag {
